@@ -6,6 +6,7 @@ import collections
 import json
 import os
 import random
+import shutil
 import tempfile
 import time
 
@@ -29,6 +30,10 @@ NEG = [("NegForgetsPersist.cfg", "WriteThrough"), ("NegPersistsBeforeStoring.cfg
 def _pmap(fn, items):
     """pool.pmap; when it ran in-process (a single item) its scratch directory - made the process's TMPDIR - is gone"""
     out = pmap(fn, items)
+    # pool.pmap's clean-up round does not necessarily reach every worker: remove what the workers report
+    for d in {o.get("scratch") for o in out if isinstance(o, dict)}:
+        if d and os.path.basename(d).startswith("verif_w_"):
+            shutil.rmtree(d, ignore_errors=True)
     if tempfile.tempdir and not os.path.isdir(tempfile.tempdir):
         tempfile.tempdir = None
         os.environ.pop("TMPDIR", None)
